@@ -38,7 +38,7 @@ def _run(args):
     return {"ok": ok, "verdicts": verdicts, "stats": stats, "out": res["out"] if not ok else ""}
 
 
-def validate(spec, defs, traces, batch=500, jobs=16, timeout=1200):
+def validate(spec, defs, traces, batch=500, jobs=16, timeout=1200, raw=None):
     """
     spec: name of the trace specification in /verif/spec; defs: dict of TD_* definitions; traces: list of traces.
     Returns (verdicts, stats): verdicts[k] = sorted list of [name, line, ...] for trace k.
@@ -61,4 +61,6 @@ def validate(spec, defs, traces, batch=500, jobs=16, timeout=1200):
         total["distinct"] += res["stats"]["distinct"]
         for pos, k in enumerate(chunk):
             verdicts[k] = sorted([list(x) for x in res["verdicts"][pos + 1]["bad"]], key=lambda x: (x[1], x[0]))
+            if raw is not None:
+                raw[k] = res["verdicts"][pos + 1]
     return verdicts, total
